@@ -1,12 +1,12 @@
 SPECIFICATION Spec
 CONSTANTS
  L = 2
- Chains <- Chains2x3
- Closed <- Ring1
+ History <- H2x3r
  Grid <- Grid2
  Bundle <- Bundle6
  MaxIter = 5
  MaxReject = 6
+ Force = FALSE
  Dev <- NoDev
 INVARIANT StepOne
 INVARIANT InBox
@@ -14,4 +14,5 @@ INVARIANT NoOverlap
 INVARIANT RootOnGrid
 INVARIANT Contiguous
 INVARIANT Final
+INVARIANT ForceWithinLimit
 CHECK_DEADLOCK FALSE
